@@ -37,7 +37,7 @@ def main():
     rc, out = sh(f"git -C /repo worktree add -q {wt} HEAD")
     assert rc == 0, out
     try:
-        rc, out = sh(f"git apply --3way {patch} || git apply {patch}", cwd=wt)
+        rc, out = sh(f"git apply {patch} || git apply --3way {patch}", cwd=wt)
         meta["applies"] = rc == 0
         if rc != 0:
             print("PATCH DOES NOT APPLY:", out[-400:])
@@ -49,7 +49,7 @@ def main():
         runner = f"{PY} -m pytest -q -p no:cacheprovider {demo}" if is_test else f"{PY} {demo}"
         env = f"PYTHONPATH={wt} "
         rc1, o1 = sh(env + runner, cwd=wt)
-        sh("git checkout -- . && git clean -fdq", cwd=wt)
+        sh("git reset -q --hard HEAD && git clean -fdq", cwd=wt)
         rc2, o2 = sh(env + runner, cwd=wt)
         meta["demo_with_change_exit"] = rc1
         meta["demo_without_change_exit"] = rc2
@@ -64,7 +64,7 @@ def main():
     # run the checks against /repo with the patch applied
     st, _ = sh("git -C /repo status --porcelain")
     assert sh("git -C /repo status --porcelain")[1].strip() == "", "repo not clean"
-    rc, out = sh(f"git -C /repo apply --3way {patch} || git -C /repo apply {patch}")
+    rc, out = sh(f"git -C /repo apply {patch} || git -C /repo apply --3way {patch}")
     results = {}
     try:
         man = json.load(open(os.path.join(VERIF, "MANIFEST.json")))
